@@ -29,6 +29,8 @@ func c13(w *core.World, r *core.Report) {
 	r.Rule("R13.2", "bookkeeping keys live under the reserved prefix; the namespace test checks exactly the reserved prefixes", 6)
 	ruleReservedNamespace(w, r)
 
+	r.Rule("R10.9", "what the reserved-prefix black list judges are keys: the static key table marks no value position of a multi-key command as a key (shared with C10)", 1)
+	ruleMultiKeySpecs(w, r)
 	r.Rule("R13.3", "suppression predicates read key positions only", 2)
 	ruleKeyPositionsOnly(w, r)
 
